@@ -118,6 +118,7 @@ type REvent struct {
 	HdrCheck   bool   `json:"hdrCheck"`
 	Group      string `json:"group"`
 	GClause    string `json:"groupClause"`
+	Truncated  bool   `json:"truncated"`  // the source bytes are a proper prefix of a longer string (last mutation is a truncation)
 	Failing    bool   `json:"failing"`    // the source is set up to fail (C15)
 	WantLen    int    `json:"wantLen"`    // >= 0: the payload an encoder was asked to write into this stream / member
 	WantDigest string `json:"wantDigest"` // its digest
@@ -134,6 +135,7 @@ type REvent struct {
 	Panic string `json:"panic"`
 	Dead  bool   `json:"dead"` // Read with err corrupt: no continuation of the input was found that a decoder could accept
 	// End
+	Seg      int    `json:"seg"` // index of the segment the event belongs to
 	Rest     int    `json:"rest"`
 	WantRest int    `json:"wantRest"` // bytes that should be left when the stream ended cleanly (-1: not applicable)
 	Digest   string `json:"digest"`
@@ -483,6 +485,8 @@ func execReaderCase(c *RCase, arch int, emit func(interface{})) {
 	}
 	var u readerUnderTest
 	have := false
+	var prevRest func() int // how much of the previous segment's source is unread (caller-owned sources)
+	prevVal := 0
 	for si := range c.Segs {
 		seg := &c.Segs[si]
 		data, origin, err := seg.Stream.BuildWithOrigin()
@@ -547,6 +551,7 @@ func execReaderCase(c *RCase, arch int, emit func(interface{})) {
 				b.GClause = "NONE.group"
 			}
 			b.Failing = seg.Src.FailAt >= 0 || seg.Src.After == "error"
+			b.Truncated = origin != nil && len(origin) > len(data)
 			b.WantLen = -1
 			if payloads != nil {
 				var want []byte
@@ -702,7 +707,7 @@ func execReaderCase(c *RCase, arch int, emit func(interface{})) {
 				}
 			}
 			rec.flush()
-			e := REvent{Ev: "End", Case: c.ID, Digest: hex.EncodeToString(h.Sum(nil))[:16], HdrOK: true, WantRest: -1}
+			e := REvent{Ev: "End", Case: c.ID, Seg: si, Digest: hex.EncodeToString(h.Sum(nil))[:16], HdrOK: true, WantRest: -1}
 			if rest != nil {
 				e.Rest = rest()
 				if morc.RefVerdict == "eof" {
@@ -713,6 +718,19 @@ func execReaderCase(c *RCase, arch int, emit func(interface{})) {
 				e.HdrOK = sameGz(u.gzHdr(), orc.Hdrs[m])
 			}
 			emit(e)
+			if prevRest != nil && m == 0 {
+				// the source of the earlier segment belongs to the caller: using the Reader on another
+				// source must not have touched it (C05: what follows the stream stays unread and intact)
+				emit(REvent{Ev: "Prev", Case: c.ID, Rest: prevRest(), WantRest: prevVal})
+			}
+			if rest != nil && !seg.Members {
+				prevRest, prevVal = rest, e.Rest
+				if seg.Src.Kind != "bufio" && seg.Src.Kind != "bytesReader" && seg.Src.Kind != "bytesBuffer" && seg.Src.Kind != "stringsReader" {
+					prevRest = nil
+				}
+			} else {
+				prevRest = nil
+			}
 			if !seg.Members {
 				break
 			}
